@@ -212,6 +212,10 @@ impl tower::Service<Req> for SimInner {
     fn call(&mut self, req: Req) -> InnerFut {
         let svc = self.svc;
         let ready_ok = std::mem::replace(&mut self.ready, false);
+        if world::with(|w| w.calls_by_svc.get(&svc).copied().unwrap_or(0)) > 5000 {
+            // a runaway loop inside one poll would otherwise hang the simulator
+            panic!("SIM-LIMIT: more than 5000 inner calls in one run");
+        }
         let (serial, attempt, beh) = world::with(|w| {
             let serial = w.next_serial;
             w.next_serial += 1;
@@ -221,6 +225,7 @@ impl tower::Service<Req> for SimInner {
             let c = w.calls_by_svc.entry(svc).or_insert(0);
             let call_idx = *c;
             *c += 1;
+
             let beh = if let Some(v) = w.script.by_req.get(&(svc, req.id)) {
                 v.get(attempt as usize)
                     .copied()
